@@ -86,6 +86,32 @@ def gen_case(rnd):
                 sqlpre=sqlpre, placeholder=rnd.random() < 0.3, autoparse=rnd.random() < 0.25, tgran=tgran, bare_dims=rnd.random() < 0.6, user_style=rnd.random() < 0.5)
 
 
+def gen_literal_twins(rnd):
+    """targeted family: several filters (or one conjunction, or measure filters) that differ ONLY in the case or the inner spacing of a string literal
+    ('a' / 'A', 'a b' / 'a  b'), on data that holds all of those values: each predicate is its own predicate"""
+    case = gen_case(rnd)
+    vals = ["a", "A", "a b", "a  b", "b", None]
+    for r in case["rows"]:
+        r[sg.S0] = rnd.choice(vals)
+    if len(case["rows"]) < 4:
+        case["rows"] = [[i % 3, i, 1 + i, 2, vals[i % 5], i + 1, "k%d" % i] for i in range(8)]
+    s0 = sg.col(sg.S0)
+    pair = rnd.choice([("a", "A"), ("a b", "a  b"), ("A", "a"), ("a  b", "a b")])
+    op = rnd.choice(["<>", "<>", "="])
+    twins = [("cmp", op, s0, sg.lit(pair[0])), ("cmp", op, s0, sg.lit(pair[1]))] if op == "<>" else [("not", ("cmp", "=", s0, sg.lit(pair[0]))), ("not", ("cmp", "=", s0, sg.lit(pair[1])))]
+    where = rnd.choice(["filters", "filters", "measure", "conj"])
+    case["filters"] = [f for f in case["filters"] if f[0] != "dref" and "dref" not in repr(f)][:1]
+    if where == "filters":
+        case["filters"] += twins
+    elif where == "conj":
+        case["filters"].append(("and", twins[0], twins[1]))
+    else:
+        a, e, fl = case["mets"][0]
+        case["mets"][0] = (a, e, twins)
+    case["sqlpre"] = []
+    return case
+
+
 def dim_name(i, e):
     """result column (and, after `t.`, the reference) of dimension number i"""
     if e[0] == "tdim":
@@ -202,6 +228,7 @@ def run(c):
     c.build_props()
     n = 400 if c.tier == "quick" else 6000
     cases = [gen_case(c.rng) for _ in range(n)]
+    cases += [gen_literal_twins(c.rng) for _ in range(max(12, n // 20))]
     for k, case in enumerate(cases):
         if k % 3 == 0:
             case["primed"] = True      # asked on a layer that has already answered the same fields in the opposite order, without filters and without slicing
